@@ -1514,7 +1514,13 @@ func (v *VMValue) ComputedExecute(ctx *Context, detail *BufferSpan) *VMValue {
 	}
 
 	if cd.code == nil {
-		_ = vm.Run(cd.Expr)
+		// Parse 会把 NumOpCount 清零；惰性编译(反序列化得到的函数、DefaultDiceSideExpr 等)时需要保留已有计数，
+		// 否则每一层递归都从0开始计数，算力上限永远不会触发
+		ops := vm.NumOpCount
+		if vm.Parse(cd.Expr) == nil {
+			vm.NumOpCount = ops
+			_ = vm.RunAfterParsed()
+		}
 		cd.code = vm.code
 		cd.codeIndex = vm.codeIndex
 	} else {
@@ -1597,7 +1603,13 @@ func (v *VMValue) FuncInvokeRaw(ctx *Context, params []*VMValue, useUpCtxLocal b
 	}
 
 	if cd.code == nil {
-		_ = vm.Run(cd.Expr)
+		// Parse 会把 NumOpCount 清零；惰性编译(反序列化得到的函数、DefaultDiceSideExpr 等)时需要保留已有计数，
+		// 否则每一层递归都从0开始计数，算力上限永远不会触发
+		ops := vm.NumOpCount
+		if vm.Parse(cd.Expr) == nil {
+			vm.NumOpCount = ops
+			_ = vm.RunAfterParsed()
+		}
 		cd.code = vm.code
 		cd.codeIndex = vm.codeIndex
 	} else {
